@@ -13,6 +13,7 @@ TRUSTED = [
     "clang 14 parse of include/*.h equals g++ 12's (same language level, Itanium layout)",
     "y2c emitter (tools/y2c.py, yunit.py, ylib.py): C++ AST -> C translation, exercised by seeded-mutation self-tests",
     "ystub_pre.h: sequentially consistent single-step atomics (memory orders dropped), operator new/delete ledger, TBB queue as FIFO, libstdc++ string_view/vector/array semantics, loop-free memcmp model (n<=16)",
+    "ystubgen.py: compilation of an (elsewhere enforced) callee contract into a stub body (assert requires / havoc assigns through the callee's own lvalues / assume ensures) and of a dispatcher-loop contract into base and step checks with the function's assigns clause as frame",
     "CBMC 6.11 goto-cc/goto-instrument --dfcc/cbmc, CaDiCaL SAT back end",
     "x86-64 little endian, 64-bit pointers with bits 62/63 clear",
 ]
